@@ -48,6 +48,22 @@ type Ctx struct {
 	ruleIdx  map[string]*RuleInfo
 	Obs      []*Obligation
 	Notes    []string
+
+	// share: while set, only the rules named in it are recorded, under the mapped id (rules of another
+	// property that are necessary conditions of this one as well; see Share)
+	share map[string]string
+}
+
+// Share runs f (the rule set of another property) and keeps only the rules listed in m, renamed to this property's
+// numbering. The obligations keep their keys, so a construct is reported identically under both properties.
+func (c *Ctx) Share(m map[string]string, f func(*Ctx)) {
+	if c.share != nil {
+		return // the shared rule set's own shares do not belong to this property
+	}
+	old := c.share
+	c.share = m
+	defer func() { c.share = old }()
+	f(c)
 }
 
 // NewCtx makes a rule context.
@@ -58,6 +74,13 @@ func NewCtx(p *Prog, property, config string) *Ctx {
 // Rule declares a rule with its text and the minimum number of obligations
 // (discharged+violated+undecided; info does not count) confirmed by hand.
 func (c *Ctx) Rule(id, text string, min int) {
+	if c.share != nil {
+		to, ok := c.share[id]
+		if !ok {
+			return
+		}
+		id = to
+	}
 	if _, ok := c.ruleIdx[id]; ok {
 		return
 	}
@@ -67,6 +90,13 @@ func (c *Ctx) Rule(id, text string, min int) {
 }
 
 func (c *Ctx) add(rule, key, pos string, st Status, detail string, trail []string) {
+	if c.share != nil {
+		to, ok := c.share[rule]
+		if !ok {
+			return
+		}
+		rule = to
+	}
 	if _, ok := c.ruleIdx[rule]; !ok {
 		panic("obligation for undeclared rule " + rule)
 	}
